@@ -10,17 +10,27 @@ from scipy.integrate import solve_ivp
 
 
 def fourier_field(x: np.ndarray, t: np.ndarray, nterm: int = 600) -> np.ndarray:
-    """(m - m_f)/(m_i - m_f) at positions x, times t (> 0)."""
+    """(m - m_f)/(m_i - m_f) at positions x, times t (> 0).  Evaluated in blocks of times: the full (terms x times x positions)
+    array of a 12800 x 160 rung would take 10 GB."""
     n = np.arange(nterm)[:, None, None]
     lam = (2 * n + 1) * np.pi / 2
-    return np.sum(2 / lam * np.sin(lam * x[None, None, :]) * np.exp(-(lam**2) * t[None, :, None]), axis=0)
+    sx = 2 / lam * np.sin(lam * x[None, None, :])
+    out = np.empty((len(t), len(x)))
+    step = max(1, int(4_000_000 // max(1, nterm * len(x))))
+    for a in range(0, len(t), step):
+        out[a:a + step] = np.sum(sx * np.exp(-(lam**2) * t[None, a:a + step, None]), axis=0)
+    return out
 
 
 def fourier_recovery(t: np.ndarray, nterm: int = 20000) -> np.ndarray:
-    """int_0^t m_x(0,s) ds / (m_i - m_f) = 1 - sum 2/lam^2 exp(-lam^2 t)."""
+    """int_0^t m_x(0,s) ds / (m_i - m_f) = 1 - sum 2/lam^2 exp(-lam^2 t)  (in blocks of times, see fourier_field)."""
     n = np.arange(nterm)[:, None]
     lam = (2 * n + 1) * np.pi / 2
-    return 1 - np.sum(2 / lam**2 * np.exp(-(lam**2) * t[None, :]), axis=0)
+    out = np.empty(len(t))
+    step = max(1, int(4_000_000 // nterm))
+    for a in range(0, len(t), step):
+        out[a:a + step] = 1 - np.sum(2 / lam**2 * np.exp(-(lam**2) * t[None, a:a + step]), axis=0)
+    return out
 
 
 def mol_reference(alpha_scaled, m_f: float, m_i: float, t_eval: np.ndarray, n: int = 800):
